@@ -786,7 +786,16 @@ def check_scanners(ctx, lib):
         o = Origins(cw, lib)
         names = [t["callee"] for _, t in cw.calls()]
         pushes = [t for _, t in cw.calls() if t["callee"].endswith("String::push")]
-        ok = len(pushes) == 1 and any(n.endswith("Peekable::<I>::peek") for n in names) and any(n == "std::iter::Iterator::next" for n in names)
+        ok = len(pushes) == 1 and ((any(n.endswith("Peekable::<I>::peek") for n in names) and any(n == "std::iter::Iterator::next" for n in names)) or
+                                   any(n.endswith("Peekable::<I>::next_if") for n in names))
+        if ok and any(n.endswith("Peekable::<I>::next_if") for n in names):
+            # next_if(|&(_, c)| predicate(c)): the test is the caller's predicate applied to the character
+            ok = False
+            for c in lib.closures_of(L + "consume_while"):
+                co = Origins(c, lib)
+                r = co.of_local(0)
+                if r and all(x[0] == "call" and x[1] in ("std::ops::Fn::call", "std::ops::FnMut::call_mut", "std::ops::FnOnce::call_once") for x in r):
+                    ok = True
         ctx.check(ok, rule, "consume_while", "consume_while peeks, and pushes + consumes a character only while the predicate holds", cw.span)
     # consume_lbracket
     cl = ctx.fn(L + "consume_lbracket", rule=rule)
